@@ -147,6 +147,10 @@ def correspond(ctx):
                 break
         if not ok:
             ctx.mismatch("noise after gates vs NoiseAttrib.local_procs", desc, events, m)
+    # which process a drawn outcome applies (shared with C01: stochastic_process is the same routine)
+    from drivers import C01
+
+    C01.chosen_process_correspondence(ctx)
     # lottery on local lists (dt = 1)
     lc, le, li = [], [], []
     for k in range(ctx.scale(40, 600)):
@@ -239,6 +243,10 @@ FIXED = [
     dict(n=3, instrs=[(0, "G2", [1, 2], "rxx", 0.8), (1, "G1", [0], "rx", 0.5), (2, "G2", [1, 0], "cx", 0.1)],
          procs=[{"name": "pauli_x", "sites": [2], "strength": 0.06}, {"name": "lowering_two", "sites": [0, 1], "strength": 0.08},
                 {"name": "pauli_y", "sites": [0], "strength": 0.03}]),
+    # a switched-off process listed ahead of live ones, and one in the middle of the list
+    dict(n=3, instrs=[(0, "G1", [0], "h", 0.1), (1, "G1", [1], "ry", 0.7), (2, "G2", [0, 1], "cx", 0.1), (3, "G2", [1, 2], "rzz", 0.6)],
+         procs=[{"name": "pauli_x", "sites": [0], "strength": 0.0}, {"name": "pauli_z", "sites": [1], "strength": 0.05},
+                {"name": "pauli_y", "sites": [2], "strength": 0.0}, {"name": "lowering", "sites": [2], "strength": 0.06}]),
 ]
 
 
@@ -276,4 +284,8 @@ def replay(ctx, data):
         return err or (f"apply_dissipation differs from the dense product of exponentials by {dev:.3e}" if dev > 1e-9 else None)
     if rp.get("oracle") == "tree":
         return tree_oracle(rp["args"])
+    if rp.get("oracle") == "chosen":
+        from drivers import C01
+
+        return C01.replay(ctx, data)
     return "re-run the check: " + "; ".join(b["what"] for b in data.get("broken", []))
